@@ -172,7 +172,69 @@ func genWrites(r *Repo) (string, error) {
 			walk(fd.Body.List)
 		}
 	}
-	for _, l := range []*[]string{&edges, &edgeArgs, &assigns, &adds, &resets} {
+	// ---- slices of nodes mutated in place (index assignment, shifting append, clear, copy into, sort): the slice must have
+	// been made by the same transaction step (make / literal / a copy), never be (a re-slice of) a slice reachable from the
+	// published tree. Followed through locals, append chains, helper parameters and helper results.
+	var slmut []string
+	for _, file := range []string{"tree.go", "node.go", "txn.go", "iter.go"} {
+		for _, d := range r.Files[file].Decls {
+			fd, ok := d.(*ast.FuncDecl)
+			if !ok || fd.Body == nil {
+				continue
+			}
+			fname := fd.Name.Name
+			if fd.Recv != nil && len(fd.Recv.List) == 1 {
+				fname = recvName(fd.Recv.List[0].Type) + "." + fname
+			}
+			if fname == "node.updateEdge" {
+				continue // the one in-place write of a child slot, accounted for above (receiver = a private clone)
+			}
+			record := func(e ast.Expr) {
+				for {
+					if se, ok := e.(*ast.SliceExpr); ok {
+						e = se.X
+						continue
+					}
+					break
+				}
+				if _, ok := e.(*ast.Ident); !ok {
+					if _, ok := e.(*ast.SelectorExpr); !ok {
+						return
+					}
+				}
+				if !oc.isNodeSlice(fd, e) {
+					return
+				}
+				slmut = append(slmut, oc.sliceClass(fd, e, 0))
+			}
+			ast.Inspect(fd.Body, func(n ast.Node) bool {
+				switch x := n.(type) {
+				case *ast.AssignStmt:
+					for _, l := range x.Lhs {
+						if ie, ok := l.(*ast.IndexExpr); ok {
+							record(ie.X)
+						}
+					}
+				case *ast.CallExpr:
+					fn := r.Text(x.Fun)
+					switch {
+					case fn == "append" && len(x.Args) > 0:
+						if se, ok := x.Args[0].(*ast.SliceExpr); ok {
+							record(se)
+						}
+					case (fn == "clear" || fn == "copy") && len(x.Args) > 0:
+						record(x.Args[0])
+					case strings.HasPrefix(fn, "slices.Sort") || fn == "sort.Slice" || fn == "sort.SliceStable" || fn == "slices.Reverse":
+						if len(x.Args) > 0 {
+							record(x.Args[0])
+						}
+					}
+				}
+				return true
+			})
+		}
+	}
+	for _, l := range []*[]string{&edges, &edgeArgs, &assigns, &adds, &resets, &slmut} {
 		sort.Strings(*l)
 		*l = dedupSorted(*l)
 	}
@@ -186,6 +248,8 @@ func genWrites(r *Repo) (string, error) {
 	fmt.Fprintf(&sb, "def nodeFieldAssigns : List String := %s\n", leanStrList(assigns))
 	sb.WriteString("/-- origin of the argument of every writable.Add -/\n")
 	fmt.Fprintf(&sb, "def writableAdds : List String := %s\n", leanStrList(adds))
+	sb.WriteString("/-- origin of every slice of nodes that is mutated in place (index assignment, shifting append, clear, copy into, sort) -/\n")
+	fmt.Fprintf(&sb, "def sliceMutations : List String := %s\n", leanStrList(slmut))
 	sb.WriteString("/-- functions that reset the writable cache -/\n")
 	fmt.Fprintf(&sb, "def writableResets : List String := %s\n", leanStrList(resets))
 	fmt.Fprintf(&sb, "def writesSha : String := %s\n", leanStr(r.Sha("tree.go", "node.go", "txn.go")))
@@ -348,4 +412,175 @@ func (oc *originCtx) paramClass(fd *ast.FuncDecl, pos, depth int) string {
 	}
 	sort.Strings(l)
 	return strings.Join(l, "+")
+}
+
+// isNodeSlice: the expression is a slice of nodes (by the declared type of a local / parameter, or by the field name)
+func (oc *originCtx) isNodeSlice(fd *ast.FuncDecl, e ast.Expr) bool {
+	switch x := e.(type) {
+	case *ast.SelectorExpr:
+		return x.Sel.Name == "children" || x.Sel.Name == "root"
+	case *ast.Ident:
+		// parameter with a declared type
+		if fd.Type.Params != nil {
+			for _, f := range fd.Type.Params.List {
+				for _, nm := range f.Names {
+					if nm.Name == x.Name {
+						t := oc.r.Text(f.Type)
+						return t == "[]*node" || t == "roots"
+					}
+				}
+			}
+		}
+		for _, d := range oc.defsOf(fd, x.Name) {
+			t := strings.Join(strings.Fields(oc.r.Text(d)), "")
+			if strings.HasPrefix(t, "make([]*node") || strings.HasPrefix(t, "make(roots") || strings.HasPrefix(t, "[]*node{") ||
+				strings.Contains(t, ".children") || strings.Contains(t, ".root") || strings.Contains(t, "getEdges()") ||
+				strings.Contains(t, "recreateParentEdge(") {
+				return true
+			}
+			if c, ok := d.(*ast.CallExpr); ok && oc.r.Text(c.Fun) == "append" && len(c.Args) > 0 {
+				if oc.isNodeSlice(fd, stripSlice(c.Args[0])) && !isIdentNamed(stripSlice(c.Args[0]), x.Name) {
+					return true
+				}
+			}
+		}
+	}
+	return false
+}
+
+func stripSlice(e ast.Expr) ast.Expr {
+	for {
+		if se, ok := e.(*ast.SliceExpr); ok {
+			e = se.X
+			continue
+		}
+		if pe, ok := e.(*ast.ParenExpr); ok {
+			e = pe.X
+			continue
+		}
+		return e
+	}
+}
+
+func isIdentNamed(e ast.Expr, name string) bool {
+	id, ok := e.(*ast.Ident)
+	return ok && id.Name == name
+}
+
+// sliceClass: where the backing array of a slice expression comes from: "made" (make, literal, a copying helper), or
+// "shared:<expr>" when it is (a re-slice of, or an append onto) a slice reachable from a node or from the roots.
+func (oc *originCtx) sliceClass(fd *ast.FuncDecl, e ast.Expr, depth int) string {
+	r := oc.r
+	if depth > 5 {
+		return "unknown:depth"
+	}
+	e = stripSlice(e)
+	switch x := e.(type) {
+	case *ast.CompositeLit:
+		return "made"
+	case *ast.SelectorExpr:
+		return "shared:" + r.Text(x)
+	case *ast.CallExpr:
+		fn := r.Text(x.Fun)
+		switch {
+		case fn == "make":
+			return "made"
+		case fn == "append" && len(x.Args) > 0:
+			return oc.sliceClass(fd, x.Args[0], depth+1)
+		case fn == "slices.Clone":
+			return "made"
+		}
+		// a helper: the class of what it returns
+		name := fn
+		if i := strings.LastIndexByte(fn, '.'); i >= 0 {
+			name = fn[i+1:]
+		}
+		for _, callee := range oc.funcs {
+			if callee.Name.Name != name {
+				continue
+			}
+			set := map[string]bool{}
+			ast.Inspect(callee.Body, func(n ast.Node) bool {
+				if _, ok := n.(*ast.FuncLit); ok {
+					return false
+				}
+				if rs, ok := n.(*ast.ReturnStmt); ok && len(rs.Results) >= 1 {
+					set[oc.sliceClass(callee, rs.Results[0], depth+1)] = true
+				}
+				return true
+			})
+			if len(set) > 0 {
+				return joinSet(set)
+			}
+		}
+		return "unknown:call " + fn
+	case *ast.Ident:
+		if x.Name == "nil" {
+			return "made"
+		}
+		if fd.Type.Params != nil {
+			pos := 0
+			for _, f := range fd.Type.Params.List {
+				for _, nm := range f.Names {
+					if nm.Name == x.Name {
+						return oc.sliceParamClass(fd, pos, depth)
+					}
+					pos++
+				}
+			}
+		}
+		set := map[string]bool{}
+		for _, d := range oc.defsOf(fd, x.Name) {
+			// nr = append(nr, …) / nr = append(nr[:i], …): the backing array of nr itself, no new origin
+			if c, ok := d.(*ast.CallExpr); ok && r.Text(c.Fun) == "append" && len(c.Args) > 0 && isIdentNamed(stripSlice(c.Args[0]), x.Name) {
+				continue
+			}
+			set[oc.sliceClass(fd, d, depth+1)] = true
+		}
+		if len(set) == 0 {
+			return "unknown:" + x.Name
+		}
+		return joinSet(set)
+	}
+	return "unknown:" + r.Text(e)
+}
+
+func joinSet(set map[string]bool) string {
+	var l []string
+	for k := range set {
+		l = append(l, k)
+	}
+	sort.Strings(l)
+	return strings.Join(l, "+")
+}
+
+func (oc *originCtx) sliceParamClass(fd *ast.FuncDecl, pos, depth int) string {
+	set := map[string]bool{}
+	for _, caller := range oc.funcs {
+		ast.Inspect(caller.Body, func(n ast.Node) bool {
+			c, ok := n.(*ast.CallExpr)
+			if !ok || pos >= len(c.Args) {
+				return true
+			}
+			name := ""
+			switch f := c.Fun.(type) {
+			case *ast.Ident:
+				if fd.Recv == nil {
+					name = f.Name
+				}
+			case *ast.SelectorExpr:
+				if fd.Recv != nil {
+					name = f.Sel.Name
+				}
+			}
+			if name == fd.Name.Name {
+				set[oc.sliceClass(caller, c.Args[pos], depth+1)] = true
+			}
+			return true
+		})
+	}
+	if len(set) == 0 {
+		return "unknown:uncalled parameter"
+	}
+	return joinSet(set)
 }
